@@ -133,6 +133,88 @@ def multi_calib():
     e2, _, Pi2 = sj.utilities.discretize.markov_rouwenhorst(rho=0.4, sigma=0.4, N=3)
     return dict(beta=0.94, r=0.02, sigma=1.5, w=1.0, a_grid=sj.utilities.discretize.agrid(40, 20), e1=e1, e2=e2, Pi_e0=Pi1, Pi_z0=Pi2, shift_e=0.0, shift_z=0.0)
 
+# ---- the same with THREE independent exogenous dimensions, and as their Kronecker product ----
+@het(exogenous=['Pi_e', 'Pi_z', 'Pi_q'], policy='a', backward='Va', backward_init=household_init)
+def household_3dim(Va_p, a_grid, y, r, beta, sigma):
+    c_nextgrid = (beta * Va_p) ** (-1 / sigma)
+    coh = (1 + r) * a_grid + y[..., np.newaxis]
+    a = sj.utilities.interpolate.interpolate_y(c_nextgrid + a_grid, coh, a_grid)
+    a = np.maximum(a, a_grid[0])
+    c = coh - a
+    uc = c ** (-sigma)
+    Va = (1 + r) * uc
+    return Va, a, c
+
+def alter_q(Pi_q0, shift_q):
+    Pi_q = _shift(Pi_q0, shift_q)
+    return Pi_q
+
+def income_multi3(e1, e2, e3, w):
+    y = w * e1[:, None, None] * e2[None, :, None] * e3[None, None, :]
+    return y
+
+def alter_kron3(Pi_e0, Pi_z0, Pi_q0, shift_e, shift_z, shift_q):
+    Pi = np.kron(np.kron(_shift(Pi_e0, shift_e), _shift(Pi_z0, shift_z)), _shift(Pi_q0, shift_q))
+    return Pi
+
+def income_kron3(e1, e2, e3, w):
+    y = w * np.kron(np.kron(e1, e2), e3)
+    return y
+
+multi3 = household_3dim.add_hetinputs([alter_e, alter_z, alter_q, income_multi3])
+kron3 = household_onedim.add_hetinputs([alter_kron3, income_kron3])
+
+def multi3_calib():
+    c = multi_calib()
+    e3, _, Pi3 = sj.utilities.discretize.markov_rouwenhorst(rho=0.5, sigma=0.3, N=2)
+    c.update(e3=e3, Pi_q0=Pi3, shift_q=0.0, a_grid=sj.utilities.discretize.agrid(40, 14))
+    return c
+
+# ---- a stage block carrying TWO backward variables that converge at different speeds (marginal value by EGM, value by iteration) ----
+def tb_util(c, eis):
+    return c ** (1 - 1 / eis) / (1 - 1 / eis)
+
+def tb_init(a_grid, y, r, eis):
+    coh = (1 + r) * a_grid[np.newaxis, :] + y[:, np.newaxis]
+    Va = (1 + r) * (0.1 * coh) ** (-1 / eis)
+    V = tb_util(0.1 * coh, eis) / 0.05
+    return Va, V
+
+def tb_household(Va, V, a_grid, y, r, beta, eis):
+    c_nextgrid = (beta * Va) ** (-eis)
+    coh = (1 + r) * a_grid[np.newaxis, :] + y[:, np.newaxis]
+    a = interpolate.interpolate_y(c_nextgrid + a_grid, coh, a_grid)
+    misc.setmin(a, a_grid[0])
+    c = coh - a
+    i, pi = interpolate.interpolate_coord_robust(a_grid, a)
+    V = tb_util(c, eis) + beta * interpolate.apply_coord(i, pi, V)
+    Va = (1 + r) * c ** (-1 / eis)
+    return Va, V, a, c
+
+twoback_stage = StageBlock([ExogenousMaker('Pi', 0, 'shock'), Continuous1D(backward=['Va', 'V'], policy='a', f=tb_household, name='consav')],
+                           name='hh2', backward_init=tb_init, hetinputs=[sim_grids, sim_income])
+TWOBACK_CALIB = dict(SIM_CALIB, eis=0.5, n_a=40)
+
+# ---- household whose borrowing limit is an INPUT: shocked below the bottom of the asset grid, policies leave the grid at the bottom ----
+def loose_init(a_grid, y, r, eis):
+    coh = (1 + r) * a_grid[np.newaxis, :] + y[:, np.newaxis]
+    Va = (1 + r) * (0.1 * coh) ** (-1 / eis)
+    return Va
+
+@het(exogenous='Pi', policy='a', backward='Va', backward_init=loose_init)
+def household_loose(Va_p, a_grid, y, r, beta, eis, blim):
+    uc_nextgrid = beta * Va_p
+    c_nextgrid = uc_nextgrid ** (-eis)
+    coh = (1 + r) * a_grid[np.newaxis, :] + y[:, np.newaxis]
+    a = interpolate.interpolate_y(c_nextgrid + a_grid, coh, a_grid)
+    a = np.maximum(a, blim)
+    c = coh - a
+    Va = (1 + r) * c ** (-1 / eis)
+    return Va, a, c
+
+loose = household_loose.add_hetinputs([sim_income, sim_grids])
+LOOSE_CALIB = dict(SIM_CALIB, blim=0.0)
+
 # ---- (unused placeholder) ---------
 def two_grids(rho_e, sd_e, n_e, rho_f, sd_f, n_f, min_a, max_a, n_a):
     e1, _, Pi_e = grids.markov_rouwenhorst(rho_e, sd_e, n_e)
